@@ -1,10 +1,13 @@
 #!/bin/sh
-# usage: tools/run_seeded.sh <seeded-id>...   (e.g. C06-a)  applies the change to /repo, runs the property's quick check, undoes the change.
+# usage: tools/run_seeded.sh <seeded-id>...   (e.g. C06-a)  applies the change to /repo, runs the property's quick check
+# (or the check named by CHECK=<ID>), undoes the change. Evidence files are saved and restored (they must describe the unchanged tree).
 cd /verif
 for s in "$@"; do
-  pid=${s%%-*}
+  pid=${CHECK:-${s%%-*}}
+  cp evidence/$pid.json /tmp/evidence_$pid.bak 2>/dev/null
   git -C /repo apply /verif/seeded/$s/patch.diff || { echo "$s APPLY-FAILED"; continue; }
   ./check $pid --tier quick > /tmp/seeded_$s.out 2>&1; rc=$?
   git -C /repo checkout -- .
-  echo "$s rc=$rc $(grep -c '^VIOLATION' /tmp/seeded_$s.out) $(grep '^VIOLATION' /tmp/seeded_$s.out | head -1)"
+  cp /tmp/evidence_$pid.bak evidence/$pid.json 2>/dev/null
+  echo "$s check=$pid rc=$rc $(grep '^VIOLATION' /tmp/seeded_$s.out | head -1)"
 done
